@@ -262,3 +262,37 @@ Proof.
   - simpl. lia.
   - simpl. lra.
 Qed.
+
+(* ------------------------------------------------------------------------------------------------
+   Semantic tie of the propagator kernels (Proofs/KernelTieC02.v; see docs/notes/kernel-tie.md): the terms translated
+   on every run from the CURRENT Python bodies by tools/kernel_extract.py (Extracted/Kernels.v) are the model functions.
+   ------------------------------------------------------------------------------------------------ *)
+From FF Require Import Extracted.Kernels Proofs.KernelTieC02.
+
+Theorem C02_kernels_translated : kernel_untranslated_C02 = nil.
+Proof. exact kernels_translated_C02. Qed.
+
+(* numeric.diagonalize: the array `piecewise` (einsum 'lij,jl,lkj->lik' with cexp(-dt * eigvals.T)) is segment_propagator *)
+Theorem C02_kernel_piecewise_is_source : forall d (ev : list R) (V : Mat (T:=R)) (dt : R) l i k, (i < d)%nat -> (k < d)%nat ->
+  mget RO (segment_propagator RO d ev V dt) i k =
+  diag_piecewise_src RO d (fun _ => dt) (fun _ j => vg RO ev j) (fun _ i' j => mget RO V i' j) l i k.
+Proof. exact diag_piecewise_is_source. Qed.
+Print Assumptions C02_kernel_piecewise_is_source.
+
+(* PulseSequence.propagator_at_arb_t, given the selected segment: V cexp((t_g - tq) ev) V^dagger Q_g *)
+Theorem C02_kernel_arb_t_is_source : forall d (ev : list R) (V Q : Mat (T:=R)) (tg tq : R) sel l i c, (i < d)%nat -> (c < d)%nat ->
+  mget RO (arb_t_segment RO d ev V Q tg tq) i c =
+  arb_t_entry_src RO d sel (fun _ => tq) (fun _ => tg) (fun _ j => vg RO ev j)
+                  (fun _ i' j => mget RO V i' j) (fun _ i' j => mget RO Q i' j) l i c.
+Proof. exact arb_t_is_source. Qed.
+Print Assumptions C02_kernel_arb_t_is_source.
+
+(* numeric.diagonalize, the whole function after eigh: cumulative[0] = identity, cumulative[i+1] = piecewise[i] @ cumulative[i]
+   (the recurrence is emitted with nat_rect) gives the model's list of cumulative propagators *)
+Theorem C02_kernel_cumulative_is_source : forall d evs Vs dts, length Vs = length evs -> length dts = length evs ->
+  forall r, (r <= length evs)%nat -> forall a b, (a < d)%nat -> (b < d)%nat ->
+  mget RO (nth r (propagators RO d evs Vs dts) nil) a b =
+  diag_cumulative_src RO d (fun g => nth g dts 0) (fun g j => vg RO (nth g evs nil) j)
+                      (fun g i j => mget RO (nth g Vs nil) i j) r a b.
+Proof. exact diag_cumulative_is_source. Qed.
+Print Assumptions C02_kernel_cumulative_is_source.
